@@ -527,7 +527,9 @@ def _fingerprint_recursive(
         fingerprints.append(('scope', static_scope))
       fingerprint = tuple(fingerprints)
       return type(obj), fingerprint
-  elif dataclasses.is_dataclass(obj):
+  elif dataclasses.is_dataclass(obj) and not isinstance(obj, type):
+    # (a dataclass CLASS used as a value is identified by the class itself,
+    # not by the defaults of its fields)
     fingerprints = []
     for field in dataclasses.fields(obj):
       if not hasattr(obj, field.name):
